@@ -5,7 +5,7 @@
 From Coq Require Import Reals Lra Lia List ZArith Bool.
 From Coquelicot Require Import Coquelicot.
 From Flocq Require Import Core.Raux.
-From Inferno Require Import Base.Num Base.NumR C20.Model.
+From Inferno Require Import Base.Num Base.NumR C20.Model C20.Spec.
 Import ListNotations.
 Open Scope R_scope.
 
@@ -72,8 +72,6 @@ Theorem normal_params_mv_inverse : forall loc scale, 0 <= scale ->
 Proof. intros loc scale Hs. dist_unfold. f_equal. apply sqrt_square; assumption. Qed.
 
 (* ---- calculus: the density is the derivative of the cdf ---- *)
-Definition erf_derivative (erf : R -> R) : Prop :=
-  forall z, is_derive erf z (2 / Rsqrt PI * Rexp (- z ^ 2)).
 
 Lemma sqrt2_sqrtPI : Rsqrt (1 + 1) * Rsqrt PI = Rsqrt (2 * PI).
 Proof. rewrite <- sqrt_mult; [f_equal; ring | lra | left; apply PI_RGT_0]. Qed.
